@@ -87,6 +87,24 @@ impl BlockBuilder {
             e2
         })?;
 
+        for scope in source_result.scopes.into_iter() {
+            let scope = match scope.into() {
+                Scope::Parameter(name) => match scope_params.get(&name) {
+                    Some(key) => Scope::PublicKey(*key),
+                    None => {
+                        return Err(error::Token::Language(
+                            biscuit_parser::error::LanguageError::Parameters {
+                                missing_parameters: vec![name],
+                                unused_parameters: vec![],
+                            },
+                        ))
+                    }
+                },
+                scope => scope,
+            };
+            self.scopes.push(scope);
+        }
+
         for (_, fact) in source_result.facts.into_iter() {
             let mut fact: Fact = fact.into();
             for (name, value) in &params {
@@ -272,6 +290,13 @@ impl BlockBuilder {
 
 impl fmt::Display for BlockBuilder {
     fn fmt(&self, f: &mut fmt::Formatter<'_>) -> fmt::Result {
+        if !self.scopes.is_empty() {
+            write!(f, "trusting {}", self.scopes[0])?;
+            for scope in &self.scopes[1..] {
+                write!(f, ", {}", scope)?;
+            }
+            writeln!(f, ";")?;
+        }
         for mut fact in self.facts.clone().into_iter() {
             fact.apply_parameters();
             writeln!(f, "{};", &fact)?;
